@@ -262,10 +262,110 @@ def r15_6(prog: Program, chk: Check) -> None:
         chk.ob("R15.6", f"typevar::solve::{kind}::has-update-path", any(any(isinstance(s, ast.Assign) and any(norm(t) == acc for t in s.targets) for s in d) for _, d in _leaves(body, [])), prog.site("typevar", body[0]), f"the {kind} arm never updates `{acc}`")
 
 
+# ------------------------------------------------------------------- R15.7
+def _solver_chunk(args):
+    msets = args
+    import itertools as _it
+
+    from ..model import Program as _P
+    from . import solver_model as sm
+
+    model = sm.SolverModel(_P())
+    classes: Dict[str, Dict[str, object]] = {}
+    runs = 0
+
+    def note(key: str, bad: bool, detail) -> None:
+        c = classes.setdefault(key, {"n": 0, "bad": 0, "witness": []})
+        c["n"] += 1  # type: ignore[operator]
+        if bad:
+            c["bad"] += 1  # type: ignore[operator]
+            w = c["witness"]
+            w.append(detail)  # type: ignore[union-attr]
+            w.sort(key=lambda d: (len(d[0]), d))  # type: ignore[union-attr]
+            del w[6:]  # type: ignore[arg-type]
+
+    for ms in msets:
+        verdicts = set()
+        sols = set()
+        uppers = [sm.TYPES[v] for k, v in ms if k == "U"]
+        separate = any(not (a <= b or b <= a) for a in uppers for b in uppers)
+        has_c = any(k == "C" for k, _ in ms)
+        for perm in _it.permutations(ms):
+            runs += 1
+            kind, mem = model.run(perm)
+            verdicts.add(kind)
+            if kind == "value":
+                sols.add(mem)
+                why = sm.satisfies(mem, perm)
+                if why is None:
+                    note("solution-satisfies-every-bound", False, None)
+                else:
+                    if "lower bound" in why:
+                        key = "solution-misses-a-lower-bound"
+                    elif "upper bound" in why:
+                        key = "solution-exceeds-an-upper-bound::" + ("constraint-chosen-without-upper-check" if has_c else "unrelated-upper-bounds" if separate else "other")
+                    else:
+                        key = "solution-is-not-a-constraint"
+                    note(key, True, (sm.fmt_bounds(perm), f"solution {sm.tname(mem)} {why}"))
+            elif kind == "error":
+                note("error-only-when-unsolvable-or-conservative", False, None)
+            else:
+                note("any-fallback", False, None)
+        accepted = {v != "error" for v in verdicts}
+        note("verdict-independent-of-order", len(accepted) > 1, (sm.fmt_bounds(ms), f"verdicts over the permutations: {sorted(verdicts)}"))
+    return runs, classes
+
+
+def r15_7(prog: Program, chk: Check) -> None:
+    import multiprocessing as mp
+    import os as _os
+
+    from . import solver_model as sm
+
+    size = 3 if _os.environ.get("VERIF_SELFTEST") else 5 if chk.tier == "thorough" else 4
+    chk.rule(
+        "R15.7",
+        "the solver as a finite model: solve() (with remove_redundant_solutions) is interpreted from its AST over a lattice of five types (sets of runtime classes; "
+        f"assignability = inclusion, unite_values = union) for every set of up to {size} bounds drawn from lower/upper bounds on each type and three constraint lists, "
+        "in every order: a returned type accepts every lower bound, is accepted by every upper bound and is one of the constraints; accepted-vs-diagnosed does not depend on the order",
+        floor=3,
+    )
+    msets = list(sm.multisets(size))
+    procs = 2 if _os.environ.get("VERIF_SELFTEST") else min(16, _os.cpu_count() or 1)
+    chunks = [msets[i :: procs * 2] for i in range(procs * 2)]
+    chunks = [c for c in chunks if c]
+    with mp.get_context("fork").Pool(procs) as pl:
+        results = pl.map(_solver_chunk, chunks)
+    runs = 0
+    merged: Dict[str, Dict[str, object]] = {}
+    for r, classes in results:
+        runs += r
+        for k, c in classes.items():
+            m = merged.setdefault(k, {"n": 0, "bad": 0, "witness": []})
+            m["n"] += c["n"]  # type: ignore[operator]
+            m["bad"] += c["bad"]  # type: ignore[operator]
+            m["witness"] = sorted(list(m["witness"]) + list(c["witness"]), key=lambda d: (len(d[0]), d))[:6]  # type: ignore[arg-type]
+    chk.model_evaluations += runs
+    chk.analysed["solver_model"] = {"bound_sets": len(msets), "orders_interpreted": runs, "max_bounds": size, "lattice": sorted(sm.TYPES)}
+    site = prog.site("typevar", prog.func("typevar", "solve"))
+    for must in ("solution-satisfies-every-bound", "verdict-independent-of-order"):
+        if must not in merged:
+            raise AnchorError(f"solver model: class {must} is empty (model broken)")
+    for k, c in sorted(merged.items()):
+        wit = [{"bounds": w[0], "detail": w[1]} for w in c["witness"]]  # type: ignore[union-attr]
+        chk.ob(
+            "R15.7",
+            f"typevar::solve::model::{k}",
+            int(c["bad"]) == 0,  # type: ignore[arg-type]
+            site,
+            f"{c['n']} cases, {c['bad']} failing" + (f"; smallest: bounds {wit[0]['bounds']}: {wit[0]['detail']}" if wit else ""),
+            witness=wit,
+        )
+
+
 def run(prog: Program, chk: Check) -> None:
     r15_1(prog, chk)
     r15_2(prog, chk)
-    r15_3(prog, chk)
     r15_4(prog, chk)
     r15_5(prog, chk)
-    r15_6(prog, chk)
+    r15_7(prog, chk)
